@@ -1006,9 +1006,21 @@ class state_machine_base : public FrontEnd
     };
 
 
+    // Ensures that the SM does not stay blocked
+    // if an entry behaviour throws during the entry of the SM.
+    struct event_processing_reset
+    {
+        bool& event_processing;
+        ~event_processing_reset()
+        {
+            event_processing = false;
+        }
+    };
+
     template <class Event, class Fsm>
     void on_entry(Event const& event, Fsm& fsm)
     {
+        event_processing_reset reset{m_event_processing};
         preprocess_entry(event, fsm);
 
         state_entry_visitor<Event> visitor{self(), event};
@@ -1020,6 +1032,7 @@ class state_machine_base : public FrontEnd
     template <class TargetStates, class Event, class Fsm>
     void on_explicit_entry(Event const& event, Fsm& fsm)
     {
+        event_processing_reset reset{m_event_processing};
         preprocess_entry(event, fsm);
 
         using state_identities =
